@@ -49,7 +49,7 @@ class Result:
         if not self.unknown:
             return 0
         os.makedirs(REPLAYS, exist_ok=True)
-        rc = 1
+        confirmed = unrepro = 0
         n = 0
         for k, u in self.unknown.items():
             f = u['first']
@@ -68,12 +68,26 @@ class Result:
                 f2['replay_note'] = text
                 json.dump(f2, open(path, 'w'), indent=1)
             if not ok:
+                # A block build with more than one worker thread runs under the OS scheduler in BX: a failure that depends on
+                # the completion order of the workers was really observed but need not recur in a replay.  It is reported as
+                # schedule-dependent (the controlled-scheduler pass of C09/C12 decides the thread dimension exhaustively).
+                thr = f.get('params', '0,0,0').split(',')
+                if f.get('kind') == 'HASHRPDACBlocks' and len(thr) > 2 and thr[2].isdigit() and int(thr[2]) > 1 and 'timeout' not in f.get('sig', ''):
+                    f2['replay_note'] = 'schedule-dependent under free-running worker threads: ' + text
+                    json.dump(f2, open(path, 'w'), indent=1)
+                    log('VIOLATION property=%s replay=%s' % (self.prop, path))
+                    log('   %s %s src=%s op=%s sig=%s cells=%d :: %s [observed with %s worker threads under the OS scheduler; not every replay reproduces it]' % (
+                        f['kind'], f['params'], f['src'], f['op'], f['sig'], u['count'], f.get('detail', '')[:160], thr[2]))
+                    confirmed += 1
+                    continue
                 log('UNREPRODUCED property=%s key=%s (%s) -- harness error, witness did not replay identically' % (self.prop, k, text))
-                rc = 2 if rc != 1 else rc
+                unrepro += 1
                 continue
+            confirmed += 1
             log('VIOLATION property=%s replay=%s' % (self.prop, path))
             log('   %s %s src=%s op=%s sig=%s cells=%d preds=%s :: %s' % (f['kind'], f['params'], f['src'], f['op'], f['sig'], u['count'], ','.join(sorted(u['preds'])), f.get('detail', '')[:160]))
-        return rc
+        # exit 1 only together with at least one VIOLATION line; witnesses that could not be replayed alone are a harness error (2)
+        return 1 if confirmed else (2 if unrepro else 0)
 
 
 # ------------------------------------------------------------------------------------------------ BX
@@ -87,6 +101,9 @@ class BX:
             'sigma=3,L=2,pal=abc,stretch=1,pd=min,nf=1,maxn=3',
             'sigma=2,L=2,pal=abc,stretch=1,pd=min,nf=1,maxn=2,pre=126+127+128',
             'sigma=2,L=4,pal=abc,stretch=1,pd=min,nf=1,maxn=3,kinds=RPDAC+HASHRPF+HASHRPDAC+RPFC',
+            # ramps: every cardinality 1..62 along the lexicographic and the shortlex order of U(2,5) (size relations:
+            # word/table/bucket boundaries, grammars with many rules, full decoding-table chunks)
+            'sigma=2,L=5,pal=abc,stretch=1,pd=minb,nf=1,ramp=both',
         ],
         'thorough': [
             'sigma=2,L=2,pal=abc+ext+sgn+spr,stretch=1+130,pd=full,nf=4',
@@ -99,6 +116,11 @@ class BX:
             'sigma=2,L=2,pal=abc+sgn,stretch=1,pd=quick,nf=1,maxn=3,pre=125+126+127+128+129',
             'sigma=2,L=4,pal=abc,stretch=1,pd=min,nf=1,maxn=3',
             'sigma=2,L=2,pal=abc,stretch=1,pd=min,nf=1,maxn=2,pre=16382+16383+16384',
+            'sigma=2,L=5,pal=abc+ext+sgn,stretch=1,pd=quick,nf=1,ramp=both',
+            'sigma=3,L=3,pal=abc+ext,stretch=1,pd=quick,nf=1,ramp=both',
+            'sigma=4,L=3,exact=1,pal=abc+spr,stretch=1,pd=quick,nf=1,ramp=lex',
+            'sigma=2,L=5,pal=abc,stretch=130,pd=min,nf=1,ramp=shortlex',
+            'sigma=2,L=5,pal=abc,stretch=1,pd=min,nf=1,co=1',
         ],
     }
     DEADLINE = {'quick': 240, 'thorough': 2700}
@@ -107,7 +129,7 @@ class BX:
         'C05': 'FMINDEX+XBW',
     }
     FLAVOUR = {'C07': ['asan', 'asan-grow']}
-    ASSUME = ['small-scope hypothesis: inputs are all string sets of the listed scopes (alphabet <= 3 member bytes per cell, lengths <= 4 symbols x stretch)',
+    ASSUME = ['small-scope hypothesis: inputs are all string sets of the listed scopes (alphabet <= 4 member bytes per cell, lengths <= 5 symbols x stretch; all subsets / subsets up to maxn / co-small complements / ramps, as each scope string says)',
               'reference model = sorted std::vector<std::string> (src/vx.hpp Model)',
               'gcc 12 AddressSanitizer in recover mode; non-strict memcmp/str* interceptors']
 
@@ -116,7 +138,7 @@ class BX:
         for s in self.SCOPES[tier]:
             # the 4 525-set U(2,4) scope exercises the Re-Pair comparison routines (locate/extract/prefix oracles); the
             # observation-vector properties take it in the thorough tier only
-            if tier == 'quick' and 'L=4' in s and prop not in ('C01', 'C02', 'C03', 'C04'):
+            if tier == 'quick' and 'L=4,' in s and prop not in ('C01', 'C02', 'C03', 'C04'):
                 continue
             if prop in self.KINDS:
                 want = self.KINDS[prop].split('+')
@@ -164,6 +186,8 @@ class BX:
 
     def replay(self, prop, path):
         f = json.load(open(path))
+        if f.get('engine') == 'SX':
+            return ENGINES['C09'].replay(prop, path)
         flav = f.get('flavour', 'asan')
         b = vlib.build_tool(flav, 'bx')
         ok, text = self.replay_one(b, f)
@@ -220,6 +244,12 @@ class BX:
                     cov['scopes_incomplete'].append(entry)
         b0 = binaries[flavours[0]]
         rc = res.finish(lambda f: self.replay_one(binaries.get(f.get('flavour', flavours[0]), b0), f))
+        if prop == 'C12':
+            # thread count is a tuning parameter too; BX runs the worker threads under the OS scheduler (one schedule per cell), so the
+            # thread dimension is decided by the controlled scheduler: every interleaving (within the preemption bound) of the real block
+            # constructor must give the image of the single-thread build -- equal images answer every query identically.
+            if self.thread_dimension(tier, max(10, deadline - (time.time() - t0)), cov):
+                rc = 1
         cov['known_findings_hit'] = {k: v['count'] for k, v in res.known_hits.items()}
         cov['distinct_failure_signatures'] = len(res.unknown) + len(res.known_hits)
         cov['rule'] = ('every non-empty subset S of U(sigma,L) (all strings of length <= L over sigma symbols; maxn/co restrict |S| as stated per scope) '
@@ -232,6 +262,45 @@ class BX:
         log('%s %s: %d units, %d sub-cells, %d objects, %d calls, %d blocked, exhaustive=%s, %.1fs, rc=%d' % (
             prop, tier, cov['units'], cov['subcells'], cov['states'], cov['transitions'], cov['blocked_subcells'], cov['exhaustive'], time.time() - t0, rc))
         return rc
+
+    def thread_dimension(self, tier, left, cov):
+        sx = ENGINES['C09']
+        sb = vlib.build_tool('plain', 'sx')
+        cfgs = [('B', 2, 2, 0, 1), ('B', 2, 2, 4, 1), ('B', 2, 3, 2, 1), ('B', 3, 2, 3, 0), ('B', 3, 3, 1, 0)] if tier == 'quick' else \
+               [('B', w, t, v, 2) for v in range(9) for w in (2, 3) for t in (2, 3)]
+        t0 = time.time()
+        results = sx.run_configs(sb, cfgs, left, t0)
+        cov['thread_dimension'] = []
+        nviol = 0
+        seen = set()
+        for r in results:
+            cfg = r['cfg']
+            if r.get('skipped'):
+                cov['exhaustive'] = False
+                cov['thread_dimension'].append({'driver': 'B', 'workers': cfg[1], 'blocks': cfg[2], 'variant': cfg[3], 'skipped': 'deadline'})
+                continue
+            cov['thread_dimension'].append({'driver': 'B (real block constructor under the controlled scheduler)', 'workers': cfg[1], 'blocks': cfg[2], 'variant': cfg[3],
+                                            'preemption_bound_completed': r['completed_bound'], 'schedules': r['executions'], 'states': r['states']})
+            cov['states'] += r['states']; cov['transitions'] += r['transitions']; cov['traces_validated_against_impl'] += r['executions']
+            if not r['complete']:
+                cov['exhaustive'] = False
+            for v in sorted(r['violations'], key=lambda x: (x['preemptions'], len(x['schedule']))):
+                key = (cfg[0], v['outcome'], re.sub(r'T\d+|obj\d+', '', v['detail'])[:60])
+                if key in seen:
+                    continue
+                seen.add(key)
+                rr = sx.replay_sched(sb, cfg, v['schedule'])
+                os.makedirs(REPLAYS, exist_ok=True)
+                path = os.path.join(REPLAYS, 'C12-%s.json' % hashlib.sha1(repr((cfg, v['schedule'])).encode()).hexdigest()[:10])
+                json.dump({'prop': 'C12', 'engine': 'SX', 'flavour': 'plain', 'cfg': list(cfg), 'schedule': v['schedule'], 'outcome': v['outcome'], 'outcome_name': OUTCOME.get(v['outcome']),
+                           'detail': v['detail'], 'trace': v['trace'], 'preemptions': v['preemptions']}, open(path, 'w'), indent=1)
+                if rr.get('outcome') != v['outcome'] or not rr.get('deterministic'):
+                    log('UNREPRODUCED property=C12 cfg=%s schedule=%s: %s' % (cfg, v['schedule'], json.dumps(rr)[:300]))
+                    continue
+                log('VIOLATION property=C12 replay=%s' % path)
+                log('   thread count: B workers=%d blocks=%d: %s %s [preemptions=%d]' % (cfg[1], cfg[2], OUTCOME.get(v['outcome']), v['detail'][:200], v['preemptions']))
+                nviol += 1
+        return nviol
 
     def run_scope(self, binary, prop, scope, left, extra):
         t = time.time()
@@ -386,6 +455,8 @@ class SX:
 
     def replay(self, prop, path):
         f = json.load(open(path))
+        if 'cfg' not in f:
+            return BX().replay(prop, path)
         b = vlib.build_tool(f.get('flavour', 'plain'), 'sx')
         r = self.replay_sched(b, tuple(f['cfg']), f['schedule'])
         ok = r.get('outcome') == f['outcome'] and r.get('deterministic')
@@ -513,7 +584,7 @@ for _p in ['C09', 'C10', 'C11']:
 
 # ------------------------------------------------------------------------------------------------ KX
 class KX:
-    PARTS = {'C17': ['vbyte', 'logseq', 'dacvls'], 'C18': ['codes'], 'C19': ['bits', 'wt'], 'C20': ['repair']}
+    PARTS = {'C17': ['vbyte', 'logseq', 'dacvls'], 'C18': ['codes', 'decode'], 'C19': ['bits', 'wt'], 'C20': ['repair']}
     DEADLINE = {'quick': 240, 'thorough': 2700}
     ASSUME = ['inputs: exhaustive up to the stated bounds, or all vectors within the stated Hamming distance of the base patterns',
               'oracles: textbook definitions on plain arrays (src/kx.cpp)', 'gcc 12 AddressSanitizer in recover mode']
